@@ -103,6 +103,9 @@ fn script(id: &str, body: &str) -> String {
 
 fn setup(sb: &Sandbox, l: &Layout) {
     sb.write("proj/asrc/a.txt", b"a-1\n");
+    // `a` also tracks every *.cfg / *.checksums file of the whole project tree: only this one
+    // exists outside the work directories (which hold the other targets' records, at any depth)
+    sb.write("proj/settings.cfg", b"never edited\n");
     sb.write("proj/csrc/c.txt", b"c-1\n");
     sb.write("proj/sub/bsrc/b.txt", b"b-1\n");
     sb.write("proj/sub/dsrc/d.txt", b"d-1\n");
@@ -123,7 +126,7 @@ fn setup(sb: &Sandbox, l: &Layout) {
     root.insert(
         "targets".into(),
         json!({
-            "a": {"build": script(&l.id(0), "mkdir -p aout && cp asrc/a.txt aout/a.txt"), "input": [{"paths": ["asrc"]}], "output": [{"paths": ["aout"]}]},
+            "a": {"build": script(&l.id(0), "mkdir -p aout && cp asrc/a.txt aout/a.txt"), "input": [{"paths": ["asrc"]}, {"paths": ["."], "extensions": ["cfg", "checksums"]}], "output": [{"paths": ["aout"]}]},
             "c": {"build": script(&l.id(2), "mkdir -p cout && cat csrc/c.txt sub/bout/b.txt > cout/c.txt"), "input": [{"paths": ["csrc"]}, "sub::b.output"], "output": [{"paths": ["cout"]}]},
             "all": {"dependencies": ["a", "sub::b"]},
         }),
